@@ -304,10 +304,12 @@ theorem offsetFor_ok (a : OffsetArray) (g o : Nat) (h : a.offsetFor g = .ok o) :
   unfold OffsetArray.offsetFor at h
   split at h
   · rename_i o' ho
-    cases h
-    have := List.getElem?_eq_some_iff.mp ho
-    obtain ⟨hl, he⟩ := this
-    exact ⟨hl, by simp [List.getD, ho]⟩
+    split at h
+    · cases h
+    · cases h
+      have := List.getElem?_eq_some_iff.mp ho
+      obtain ⟨hl, he⟩ := this
+      exact ⟨hl, by simp [List.getD, ho]⟩
   · cases h
 
 theorem sliceLen_add (b : Bytes) (s m n : Nat) :
@@ -585,10 +587,15 @@ theorem lookup_none_isReplaced (repl : List (Nat × Bytes)) (g : Nat) (h : repl.
 def chunks (a : OffsetArray) (t : OffsetType) (repl : List (Nat × Bytes)) (maxGid : Nat) : List Bytes :=
   (List.range' 0 (maxGid + 1)).map (chunkFor a t repl)
 
+/-- the array's own `all_offsets_are_ascending()` is at least as strict as `ascending` over the whole
+offset list: by definition for glyf/loca and gvar; the CFF INDEX implementation skips the last entry,
+there it is a well-formedness condition on the base table (`cffArray_ascSound`, Lemmas/IftCff.lean). -/
+def OffsetArray.AscSound (a : OffsetArray) : Prop := a.ascOk = true → ascending a.offsets = true
+
 /-- **`OffsetArrayBuilder::build`**: on success the data is the concatenation of the per-glyph chunks
 and the offset array encodes their running starts followed by the total length. -/
 theorem buildOffsets_eq (a : OffsetArray) (t : OffsetType) (repl : List (Nat × Bytes)) (maxGid dc oc : Nat)
-    (hsort : SortedGids repl) (data offs : Bytes)
+    (hA : a.AscSound) (hsort : SortedGids repl) (data offs : Bytes)
     (h : buildOffsets a t repl maxGid dc oc = .ok (data, offs)) :
     data = (chunks a t repl maxGid).flatten ∧
     offs = encodeOffs t (startsFrom 0 (chunks a t repl maxGid) ++ [(chunks a t repl maxGid).flatten.length]) ∧
@@ -599,7 +606,7 @@ theorem buildOffsets_eq (a : OffsetArray) (t : OffsetType) (repl : List (Nat × 
   split at h
   · cases h
   · rename_i hasc
-    have hasc' : ascending a.offsets = true := by simpa using hasc
+    have hasc' : ascending a.offsets = true := hA (by simpa using hasc)
     split at h
     · cases h
     · rename_i st hb
@@ -752,24 +759,42 @@ theorem patchOffsetArray_ok (a : OffsetArray) (repl : List (Nat × Bytes)) (maxG
 per-glyph chunks (padded replacement, or the old bytes) for gids `0..=maxGid`, and the new offset
 array encodes `newOffsets` of these chunks in the chosen offset type. -/
 theorem patchOffsetArray_eq (a : OffsetArray) (repl : List (Nat × Bytes)) (maxGid : Nat)
-    (hsort : SortedGids repl) (t : OffsetType) (data offs : Bytes)
+    (hA : a.AscSound) (hsort : SortedGids repl) (t : OffsetType) (data offs : Bytes)
     (h : patchOffsetArray a repl maxGid = .ok (t, data, offs)) :
     data = (chunks a t repl maxGid).flatten ∧
     offs = encodeOffs t (newOffsets (chunks a t repl maxGid)) := by
   obtain ⟨total, _, _, _, hb⟩ := patchOffsetArray_ok a repl maxGid t data offs h
-  obtain ⟨h1, h2, _⟩ := buildOffsets_eq a t repl maxGid _ _ hsort data offs hb
+  obtain ⟨h1, h2, _⟩ := buildOffsets_eq a t repl maxGid _ _ hA hsort data offs hb
   exact ⟨h1, h2⟩
 
 theorem patchOffsetArray_facts (a : OffsetArray) (repl : List (Nat × Bytes)) (maxGid : Nat)
-    (hsort : SortedGids repl) (t : OffsetType) (data offs : Bytes)
+    (hA : a.AscSound) (hsort : SortedGids repl) (t : OffsetType) (data offs : Bytes)
     (h : patchOffsetArray a repl maxGid = .ok (t, data, offs)) :
     ascending a.offsets = true ∧
     (chunks a t repl maxGid).flatten.length / t.divisor + t.bias < 2 ^ (t.width * 8) ∧
     KeptInBounds a repl maxGid ∧
     (∀ x ∈ repl, x.1 ≤ maxGid) := by
   obtain ⟨total, _, _, hlast, hb⟩ := patchOffsetArray_ok a repl maxGid t data offs h
-  obtain ⟨_, _, h3, h4, h5⟩ := buildOffsets_eq a t repl maxGid _ _ hsort data offs hb
+  obtain ⟨_, _, h3, h4, h5⟩ := buildOffsets_eq a t repl maxGid _ _ hA hsort data offs hb
   refine ⟨h3, h4, h5, ?_⟩
+  intro x hx
+  cases hgl : repl.getLast? with
+  | none => rw [List.getLast?_eq_none_iff] at hgl; subst hgl; cases hx
+  | some y =>
+    rw [hgl] at hlast
+    simp only at hlast
+    obtain ⟨pre, hpre⟩ := List.getLast?_eq_some_iff.mp hgl
+    subst hpre
+    rcases List.mem_append.mp hx with e | e
+    · have := (List.pairwise_append.mp hsort).2.2 x e y (by simp)
+      omega
+    · simp only [List.mem_singleton] at e; subst e; exact hlast
+
+/-- on success no replacement lies beyond `maxGid` (needs no assumption on the offsets) -/
+theorem patchOffsetArray_gids_le (a : OffsetArray) (repl : List (Nat × Bytes)) (maxGid : Nat)
+    (hsort : SortedGids repl) (t : OffsetType) (data offs : Bytes)
+    (h : patchOffsetArray a repl maxGid = .ok (t, data, offs)) : ∀ x ∈ repl, x.1 ≤ maxGid := by
+  obtain ⟨total, _, _, hlast, _⟩ := patchOffsetArray_ok a repl maxGid t data offs h
   intro x hx
   cases hgl : repl.getLast? with
   | none => rw [List.getLast?_eq_none_iff] at hgl; subst hgl; cases hx
